@@ -56,7 +56,7 @@ TReset ==
   /\ wr' = [s \in Sessions |-> [d \in Dirs |-> 0]] /\ rd' = [s \in Sessions |-> [d \in Dirs |-> 0]]
   /\ flags' = {} /\ UNCHANGED segVars
 
-Skipped == {"srv.attached", "srv.session", "srv.accept", "srv.stream", "app.done", "stall", "car.refused", "ses.over",
+Skipped == {"srv.flood", "srv.attached", "srv.session", "srv.accept", "srv.stream", "app.done", "stall", "car.refused", "ses.over",
             "car.srvclosed", "car.notclosed", "sys.note", "dial.popped", "prx.open", "prx.kill", "brk.offer", "brk.drop"}
 TSkip == l <= Len(TraceLog) /\ e.ev \in Skipped /\ Step /\ UNCHANGED <<vars, wr, rd, flags>>
 
